@@ -445,7 +445,66 @@ def run_type_sweep(item, part):
                                    cs, want if legal else "InvalidValueError", got)
 
 
+def run_process_tz(item, part):
+    """ENVIRONMENT: naive datetime objects (as 'modified' of the original, as the caller's explicit 'modified') mean UTC whatever the process time zone is: the version
+    rule gives the same answers under every TZ"""
+    import datetime as _dt
+    import stix2
+    from stix2 import versioning as V
+    env.reset()
+    zone = item["zone"]
+    base_naive = _dt.datetime(2020, 1, 1, 12, 0, 0)
+    cur = tsfmt.instant_of("2020-01-01T12:00:00.000Z")
+    try:
+        with env.process_tz(zone):
+            for ver in ("2.0", "2.1"):
+                d0 = dict(starts()["v21-campaign-dict" if ver == "2.1" else "v20-campaign-dict"][2])
+                for form in ("dict-with-naive-datetimes", "object-from-naive-datetimes"):
+                    d = dict(copy.deepcopy(d0), created=base_naive - _dt.timedelta(days=1), modified=base_naive)
+                    obj = d if form.startswith("dict") else stix2.parse(copy.deepcopy(d), version=ver)
+                    for cname, us in (("0", 0), ("-1s", -1000000), ("+1us", 1), ("+1s", 1000000)):
+                        part.transitions += 1
+                        part.evaluations += 1
+                        cs = {"kind": "process-tz", "zone": zone, "version": ver, "form": form, "clock": cname}
+                        env.CLOCK.frozen = to_dt(cur + us * tsfmt.PS_PER_US)
+                        try:
+                            res = V.new_version(obj, description="x")
+                            new = tsfmt.instant_of(view(res).get("modified"))
+                        except Exception as e:
+                            new = None
+                            part.violation("C05/legal-op-refused/%s/process-tz" % type(e).__name__, "a legal change set is refused under another process time zone", cs, "new version", "%s: %s" % (type(e).__name__, str(e)[:120]))
+                            continue
+                        finally:
+                            env.CLOCK.frozen = None
+                        want_floor = max(cur, cur + us * tsfmt.PS_PER_US)
+                        part.state(("process-tz", zone, ver, form, cname), nontrivial=True)
+                        if new is None or not trunc_ps(new, ver) > trunc_ps(cur, ver) or new > want_floor + 1000 * tsfmt.PS_PER_US * 1000:
+                            part.violation("C05/not-strictly-newer/process-tz/%s" % ("dict" if form.startswith("dict") else "obj"), "under another process time zone the new modified is not strictly later (or jumps by the zone's offset)", cs,
+                                           "just after 2020-01-01T12:00:00Z", view(res).get("modified"))
+                        else:
+                            part.outcome("process-tz:newer")
+                    for delta_h, legal in ((1, True), (-1, False)):
+                        part.transitions += 1
+                        cs = {"kind": "process-tz", "zone": zone, "version": ver, "form": form, "explicit_modified_hours": delta_h}
+                        try:
+                            res = V.new_version(obj, modified=base_naive + _dt.timedelta(hours=delta_h))
+                            got = tsfmt.instant_of(view(res).get("modified"))
+                            okk = legal and got == cur + delta_h * 3600 * 10 ** 6 * tsfmt.PS_PER_US
+                            obs = view(res).get("modified")
+                        except Exception as e:
+                            okk, obs = (not legal) and type(e).__name__ == "InvalidValueError", type(e).__name__
+                        if not okk:
+                            part.violation("C05/explicit-modified/process-tz/%s" % ("later-refused-or-moved" if legal else "earlier-accepted"), "a naive explicit modified is not read as UTC under another process time zone", cs,
+                                           "13:00:00Z kept" if legal else "InvalidValueError", obs)
+                        else:
+                            part.outcome("process-tz:explicit-ok")
+    finally:
+        env.reset()
+
+
 def run_item(item, part):
+    if item.get("kind") == "process-tz":
+        return run_process_tz(item, part)
     if item.get("kind") == "type-sweep":
         return run_type_sweep(item, part)
     if item.get("kind") == "sweep":
@@ -456,6 +515,8 @@ def run_item(item, part):
 
 
 def replay(case, part):
+    if case.get("kind") == "process-tz":
+        return run_process_tz({"kind": "process-tz", "zone": case["zone"]}, part)
     if case.get("kind") == "type-sweep":
         return run_type_sweep({"kind": "type-sweep", "version": case["version"], "key": case["key"]}, part)
     if case.get("kind") == "sweep":
@@ -512,6 +573,7 @@ def run(run):
             for lo in range(0, 1000, 250):
                 sweep.append({"kind": "sweep", "form": form, "base": base, "ms_lo": lo, "ms_hi": lo + 250})
     run.pmap(run_item, sweep)
+    run.pmap(run_item, [{"kind": "process-tz", "zone": z} for z in env.process_tz.ZONES])
     from mc.spec import gen as _gen
     run.pmap(run_item, [{"kind": "type-sweep", "version": v, "key": k} for v in ("2.0", "2.1") for k in _gen.Gen(v).top_keys()])
     run.rule = ("BFS over new_version/revoke/marking histories; each clock-reading operation x 8 clock answers relative to the current modified; full alphabet from states "
